@@ -46,3 +46,9 @@ def run(ctx):
     from .. import intwidth
 
     intwidth.int_narrowing(ctx)  # index / offset arrays must not wrap
+    from .. import spaces as _spaces
+
+    _spaces.localised_inherit(ctx)  # singular parts, sparse forms, potentials and FMM point maps are computed on the localised companion space
+    from . import c11 as _c11
+
+    _c11.refinement(ctx)  # barycentric spaces live on the barycentric grid: its children, midpoints and inherited domain indices
